@@ -136,3 +136,12 @@ pub fn shared_pool() -> std::sync::Arc<rayon::ThreadPool> {
     })
     .clone()
 }
+
+/// Resident set size of this process in MB (0 if unknown).
+pub fn rss_mb() -> u64 {
+    std::fs::read_to_string("/proc/self/statm")
+        .ok()
+        .and_then(|s| s.split_whitespace().nth(1).and_then(|x| x.parse::<u64>().ok()))
+        .map(|pages| pages * 4096 / (1024 * 1024))
+        .unwrap_or(0)
+}
